@@ -46,7 +46,9 @@ func cleanupTemplates() {
 	treeTplMu.Lock()
 	defer treeTplMu.Unlock()
 	for _, t := range treeTpl {
-		os.RemoveAll(t.dir)
+		if !t.shared {
+			os.RemoveAll(t.dir)
+		}
 	}
 }
 
